@@ -122,6 +122,7 @@ let show tss = function
      | RpPong -> "simple:PONG"
      | RpNum None -> "null" | RpNum (Some n) -> string_of_n n
      | RpEvent None -> "null" | RpEvent (Some e) -> show_event e
+     | RpScan (_, evs) when tss = [false; false] -> Printf.sprintf "sub [%s]" (String.concat ";" (List.map show_event evs))
      | RpScan (more, evs) -> Printf.sprintf "more=%d [%s]" (if more then 1 else 0) (String.concat ";" (List.map show_event evs))
      | RpAppend (id, pk, pid, seq, ver, ms) ->
        Printf.sprintf "ok id=%s pk=%s pid=%s seq=%s ver=%s ts=%s" (sym_eid id) (sym_key pk) (string_of_n pid) (string_of_n seq) (string_of_n ver)
@@ -186,6 +187,7 @@ let request h toks =
           (RqSVer (n_of_string (stream_of s), !pk, dflt_of h (stream_of s)), [])
         | _ -> bad "V")
      | "Q" -> (match args with [s] -> (RqPSeq (psel_of h s), []) | _ -> bad "Q")
+     | "U" -> (match args with [s] -> (RqPScan (PsId (num s), RgStart, RgEnd, Some (n_of_string "18446744073709551615")), [false; false]) | _ -> bad "U")
      | "X" -> (RqMalformed, [])
      | _ -> bad "command")
 
